@@ -120,6 +120,7 @@ type Spec struct {
 	GovStakeThresh   uint8       `json:"gov_stake_threshold"`
 	GovMinDeposit    uint64      `json:"gov_min_deposit"`
 	CommissionBound  bool        `json:"commission_bounds"`
+	MinCommission    uint64      `json:"min_commission_rate"`
 	WithRuntime      bool        `json:"with_runtime"`
 	RtGroup          uint16      `json:"rt_group"`
 	RtBackup         uint16      `json:"rt_backup"`
@@ -283,7 +284,7 @@ func BuildGenesis(spec *Spec) (*World, error) {
 			RateBoundLead:      2,
 			MaxRateSteps:       4,
 			MaxBoundSteps:      4,
-			MinCommissionRate:  q(0),
+			MinCommissionRate:  q(spec.MinCommission),
 		},
 		Slashing: map[staking.SlashReason]staking.Slash{
 			staking.SlashConsensusEquivocation:      {Amount: q(spec.SlashAmount), FreezeInterval: beacon.EpochTime(spec.SlashFreeze)},
@@ -397,7 +398,7 @@ func BuildGenesis(spec *Spec) (*World, error) {
 		}
 		src := q(amount)
 		amt := q(amount)
-		deb := &staking.DebondingDelegation{DebondEndTime: doc.Beacon.Base + 1 + beacon.EpochTime(i%3)}
+		deb := &staking.DebondingDelegation{DebondEndTime: doc.Beacon.Base - 1 + beacon.EpochTime((uint64(i)+amount)%5)}
 		if _, err := ea.Escrow.Debonding.Deposit(&deb.Shares, &src, &amt); err != nil {
 			continue
 		}
@@ -507,6 +508,11 @@ func (w *World) NodeDescriptor(ek *EntityKeys, nk *NodeKeys, expiration beacon.E
 	if roles == 0 || roles == node.RoleValidator {
 		roles = w.RolesOf(nk)
 	}
+	return w.NodeDescriptorWithRoles(ek, nk, expiration, roles)
+}
+
+// NodeDescriptorWithRoles builds a node descriptor with exactly the given roles.
+func (w *World) NodeDescriptorWithRoles(ek *EntityKeys, nk *NodeKeys, expiration beacon.EpochTime, roles node.RolesMask) *node.Node {
 	// deterministic per-name address byte
 	var sum byte
 	for _, c := range []byte(nk.Name) {
